@@ -241,7 +241,7 @@ def _formats(cell, stats):
 
     def harness(ex):
         ph = [z3.Bool(f"phantom{i}") for i in range(3)]
-        for vendor in ("Dominion", "Hart"):
+        for vendor in ([cell["only"]] if cell.get("only") else ["Dominion", "Hart"]):
             if vendor == "Dominion":
                 cv = [A.CVR(id=("phantom-1-%d" % i) if bool(SB(ph[i])) else f"T{i}-B{i}-{i + 1}", votes={}, phantom=bool(SB(ph[i])), card_in_batch=i + 1) for i in range(3)]
                 man = pd.DataFrame({"Tray #": ["1", "2", "3"], "Tabulator Number": ["T0", "T1", "T2"], "Batch Number": ["B0", "B1", "B2"],
